@@ -39,6 +39,8 @@ func (f e4Fault) String() string {
 		return fmt.Sprintf("refuse{c%d code %d}", f.Conn, f.Code)
 	case "dropAck":
 		return fmt.Sprintf("dropAck{c%d %s #%d}", f.Conn, refTypeNames[f.Type], f.Nth)
+	case "hostileSuback":
+		return fmt.Sprintf("hostileSuback{c%d #%d code %#x}", f.Conn, f.Nth, f.Code)
 	}
 	return fmt.Sprintf("%s{c%d pkt %d}", f.Kind, f.Conn, f.Pkt)
 }
@@ -78,7 +80,8 @@ type vbroker struct {
 	methodB     bool
 	plan        []*e4Fault
 	noFaults    bool
-	grantMax    int // 0: grant what was requested; n: grant min(requested, n-... see grant())
+	grantMax    int           // 0: grant what was requested; n: grant at most QoS n-1
+	pingDelay   time.Duration // PINGRESP is sent this much later (a slow but healthy broker)
 
 	sessionExists bool
 	subs          map[string]int
@@ -329,6 +332,13 @@ func (c *vbConn) process(pk refPacket, lose bool) {
 				}
 			}
 		}
+		nthSub := c.typeCount[rtSubscribe]
+		if f := b.fault(func(f *e4Fault) bool { return f.Kind == "hostileSuback" && f.Conn == c.id && f.Nth == nthSub }); f != nil {
+			// a broker answering with failure / reserved return codes (well-formed packet, hostile content)
+			for i := range codes {
+				codes[i] = f.Code
+			}
+		}
 		ack(refPacket{Type: rtSubAck, ID: pk.ID, Codes: codes}, vTagOf(pk))
 	case rtUnsubscribe:
 		for _, f := range pk.Filters {
@@ -336,7 +346,19 @@ func (c *vbConn) process(pk refPacket, lose bool) {
 		}
 		ack(refPacket{Type: rtUnsubAck, ID: pk.ID}, vTagOf(pk))
 	case rtPingReq:
-		ack(refPacket{Type: rtPingResp}, "")
+		if b.pingDelay > 0 && !lose {
+			d := b.pingDelay
+			go func() {
+				time.Sleep(d)
+				b.mu.Lock()
+				if !c.dead {
+					c.send(refPacket{Type: rtPingResp}, false, "")
+				}
+				b.mu.Unlock()
+			}()
+		} else {
+			ack(refPacket{Type: rtPingResp}, "")
+		}
 	case rtPubAck, rtPubRec, rtPubComp:
 		// client's answers to broker-originated messages
 	case rtDisconnect:
